@@ -730,6 +730,19 @@ func runKillEngine(e *Env, c04, c05 bool) {
 					continue
 				}
 				ri := ris[0]
+				// the sender uses recorded bits only up to the chunk the report
+				// names as verified: a report that names a lower chunk than the
+				// highest one recorded makes the sender send finished chunks again
+				highest := -1
+				for i, b := range sn.Bits {
+					if b {
+						highest = i
+					}
+				}
+				if highest >= 0 && int64(ri.LastVerifiedChunk) < int64(highest) {
+					e.R.Violate("finished-chunks-above-a-gap-not-usable:"+siteClass(c), fmt.Sprintf("on-disk sidecar of %s marks chunk %d complete but the resumed receiver's report lets the sender use its bits only up to chunk %d: the finished chunks above are requested again", sn.FileID, highest, ri.LastVerifiedChunk), c, map[string]any{"bitmap": fmt.Sprintf("%x", ri.Bitmap), "sidecar_bits": sn.Bits})
+					continue
+				}
 				for i, b := range sn.Bits {
 					if b && !bitOf(ri.Bitmap, i) {
 						e.R.Violate("finished-chunk-not-advertised:"+siteClass(c), fmt.Sprintf("on-disk sidecar of %s marks chunk %d complete after the interruption but the resumed receiver's FileResumeInfo does not advertise it", sn.FileID, i), c, map[string]any{"bitmap": fmt.Sprintf("%x", ri.Bitmap)})
